@@ -13,6 +13,8 @@ Open Scope N_scope.
 Inductive step :=
 | SPut (k v : bytes) | SDel (k : bytes) | SDelRange (s e : bytes) | SMerge (k v : bytes)
 | SCommit | SClear | SNewBatch
+| SOtherBatch                             (* another live batch object, holding no pending operation, is selected, cleared
+                                             or destroyed: batch objects do not share state, so nothing happens *)
 | SFlush                                  (* CompactRange over everything: flush + compaction, no observable effect *)
 | SGet (k : bytes) | SExist (k : bytes) | SMultiGet (ks : list bytes)
 | SIter (o : iter_opts) (vt : N)          (* NewDBRangeLimitIteratorWithOpts, NoTimestamp(vt) *)
@@ -43,6 +45,7 @@ Definition run_step (k : ekind) (d : db) (s : step) : db * result :=
   | SCommit => let '(d', ok) := db_commit d in (d', RCommit ok)
   | SClear => (db_clear d, RNone)
   | SNewBatch => (db_clear d, RNone)
+  | SOtherBatch => (d, RNone)
   | SFlush => (d, RNone)
   | SGet k => (d, RVal (db_get d k))
   | SExist k => (d, RBool (db_exist d k))
